@@ -161,9 +161,12 @@ func (p *Partition) checkSequence(b sarama.VerifBatch) (kerr sarama.KError, dupl
 	switch {
 	case b.FirstSeq == st.nextSeq:
 		return sarama.ErrNoError, false, -1
-	case b.FirstSeq < st.nextSeq:
+	case len(st.recent) > 0 && b.FirstSeq+n-1 < st.recent[0].first:
+		// entirely older than everything still cached: brokers >= 1.0 cannot tell the offset any more
 		return sarama.ErrDuplicateSequenceNumber, false, -1
 	}
+	// neither the next expected sequence nor an exact re-send of a cached batch (this includes a
+	// re-send that was re-batched differently): brokers >= 1.0 answer OUT_OF_ORDER_SEQUENCE_NUMBER
 	return sarama.ErrOutOfOrderSequenceNumber, false, -1
 }
 
